@@ -106,3 +106,13 @@ Example wrap_error_nonvacuous :
   wrap_error (Some (EPlain 3)) = Some (EGobl K_INTERNAL (Some (EPlain 3))) /\
   envelope_verify true 0 [] = Some (EGobl K_SIGNATURE (Some (EPlain 1))).
 Proof. repeat split. Qed.
+
+(* non-vacuity of the remaining implications *)
+Example header_conservative_nonvacuous :
+  no_nil (h_stamps (mkHeader true true [Some (mkStamp 1 1)] [Some (mkLink 1 true 1)])) /\
+  validate_header false true (mkHeader true true [Some (mkStamp 1 1)] [Some (mkLink 1 true 1)]) = Ok tt.
+Proof. split; [repeat constructor; discriminate|vm_compute; reflexivity]. Qed.
+
+Example item_price_conservative_nonvacuous :
+  calc_item_price wit_defs false (mkItem 0 (Some (mkA 1000 2)) []) 978%Z [] <> Panic.
+Proof. vm_compute. discriminate. Qed.
